@@ -120,6 +120,14 @@ def gen_container(rng, prefixes, nrec):
                 uri = dict(NS_POOL)[pfx] + "same"
                 v = [{"$": uri, "type": "xsd:anyURI"}, {"$": pfx + ":same", "type": "prov:QUALIFIED_NAME"}]
             rec[an] = v
+        if kind in ("entity", "agent", "wasDerivedFrom") and rng.random() < 0.25:
+            # PROV-defined subtypes of the record's own kind (one, two or three) as qualified names, next to whatever
+            # prov:type the record has already
+            fam = {"entity": ["Plan", "Collection", "EmptyCollection", "Bundle"], "agent": ["Person", "Organization", "SoftwareAgent"],
+                   "wasDerivedFrom": ["Revision", "Quotation", "PrimarySource"]}[kind]
+            subs = [{"$": "prov:" + t, "type": "prov:QUALIFIED_NAME"} for t in rng.sample(fam, rng.choice([1, 2, 2, 3]))]
+            cur = rec.get("prov:type")
+            rec["prov:type"] = (cur if isinstance(cur, list) else ([cur] if cur is not None else [])) + subs
         slot = c.setdefault(kind, {})
         if ident in slot:
             cur = slot[ident]
